@@ -12,6 +12,7 @@ import enum
 import json
 import os
 import re
+import sys
 import tempfile
 import typing
 from pathlib import Path
@@ -1256,6 +1257,58 @@ class C16(core.PropertyCheck):
         if not GEN_FILE.exists() or GEN_FILE.read_text() != text:
             GEN_FILE.write_text(text)
         return problems
+
+    # ---- the specification in force changes between two configurations of one process ----
+    def extra_checks(self, tier, rng):
+        import subprocess
+        import threading
+        helper = Path(__file__).resolve().parent.parent / "impl" / "c16_specswitch.py"
+        default = list(specparser.Spec.get().data_fields)
+        pool = sorted(set(default) | {"zeta_field", "omega_field"})
+        seqs = []
+        for _ in range(8 if tier == "quick" else 60):
+            steps = []
+            for i in range(rng.randint(2, 4)):
+                fields = None if (i == 0 and rng.random() < 0.7) or rng.random() < 0.3 else rng.sample(pool, rng.randint(0, 3))
+                steps.append({"spec_fields": fields, "data": {k: "v" for k in rng.sample(pool, rng.randint(1, 3))}})
+            seqs.append(steps)
+        results = [None] * len(seqs)
+
+        def work(i):
+            try:
+                env = dict(os.environ, PYTHONPATH=str(core.REPO))
+                p = subprocess.run([sys.executable, str(helper)], input=json.dumps({"steps": seqs[i]}), env=env, stdout=subprocess.PIPE,
+                                   stderr=subprocess.PIPE, text=True, timeout=300, cwd=str(core.REPO))
+                results[i] = json.loads(p.stdout)["rows"] if p.returncode == 0 else ("exc", p.stderr[-400:])
+            except Exception as e:
+                results[i] = ("exc", str(e))
+
+        threads = [threading.Thread(target=work, args=(i,)) for i in range(len(seqs))]
+        for t in threads:
+            t.start()
+        for t in threads:
+            t.join()
+        viol, opened, switches = [], 0, 0
+        for steps, rows in zip(seqs, results):
+            if isinstance(rows, tuple):
+                raise core.Infra(f"spec-switch helper failed: {rows[1]}")
+            force = default
+            for k, (st, row) in enumerate(zip(steps, rows)):
+                if st["spec_fields"] is not None:
+                    force = st["spec_fields"]
+                    switches += 1
+                opened += 1
+                want = sorted(x for x in st["data"] if x not in force)
+                if row["exc"] or row["refused"] != want or row["in_force"] != force:
+                    viol.append({"case": {"kind": "spec-switch", "steps": steps[: k + 1]},
+                                 "desc": (f"spec-switch: configuration number {k + 1} of one process, opened with data_fields {force} in force and [data] keys "
+                                          f"{sorted(st['data'])}: refused {row['refused']} (exc {row['exc']}), expected {want}"),
+                                 "key": "spec-switch"})
+                    break
+            if viol:
+                break
+        return viol, {"specification_changes_between_opens": {"sequences": len(seqs), "configurations_opened": opened, "specifications_put_in_force": switches,
+                                                              "what": "Spec.initialize with other data_fields between ProjectConfig.open calls of one process; [data] keys are judged by the specification in force"}}
 
     def static_obligations(self):
         bad = []
